@@ -26,6 +26,37 @@ META = dict(
 
 KINDS = ["runtime", "range", "std", "nonstd", "eval", "boxed"]
 
+# calls whose argument goes through a registered type conversion (VSrc -> VDst): the converted object is "saved" until the outermost call
+# returns. Not in the model (it has no conversions); the model-independent oracles apply: resting shape, nothing left in call_params.
+# (The converted object of the LAST call stays in Type_Conversions' own buffer until the next call on the thread: that buffer is not one of the Stack_Holder's lists the
+# property names, and C11 allows it; an oracle that demanded it empty was a false alarm and was removed.)
+CONV_BODIES = ["take_dst(mk_src(%d))", "pr(take_dst(mk_src(%d)))", "take_dst(mk_src(%d), cb0(1))", "cb1(take_dst(mk_src(%d)))", "var x%d = take_dst(mk_src(%d))",
+               "take_dst(mk_src(%d)) + take_dst(mk_src(%d), 2)", "[take_dst(mk_src(%d)), 2]", "def g%d(a) { take_dst(a) }; g%d(mk_src(3)); g%d(mk_src(4))"]
+CONV_WRAPS = ["%s", "{ var q = 1; %s; pr(q) }", "for (var i = 0; i < 3; ++i) { %s }", "for (var i = 0; i < 3; ++i) { var z = i; %s; cb2(z) }", "var x900 = 0; while (x900 < 2) { ++x900; var z = x900; %s }",
+              "for (e : [1, 2]) { %s }", "try { var z = 1; %s; cb3(2) } catch (e) { pr(0) }", "try { var z = 1; %s; throw(1) } catch (e) { %s }", "def f() { var z = 1; %s; z }; f(); f()",
+              "def f() { %s }; { var q = 2; f(); pr(q) }", "if (true) { var z = 1; %s }", "switch (1) { case (1) { var z = 1; %s; break } }", "var x901 = fun() { var z = 1; %s }; { var y = 0; x901() }",
+              "{ var a = 1; { var b = 2; %s } }; pr(1)"]
+
+
+def conv_scripts(rng, n):
+    out, k = [], 100
+    for _ in range(n):
+        w = rng.choice(CONV_WRAPS)
+        parts = []
+        for _ in range(w.count("%s")):
+            b = rng.choice(CONV_BODIES)
+            args = []
+            for _ in range(b.count("%d")):
+                k += 1
+                args.append(k)
+            if b.startswith("def g"):
+                args = [args[0]] * 3
+            if b.startswith("var x"):
+                args = [args[0], args[1]]
+            parts.append(b % tuple(args))
+        out.append(w % tuple(parts))
+    return out
+
 
 def top_level_names(src):
     """names a top-level `var` may leave in scope 0 (a superset: depth-0 declarations of the printed program)"""
@@ -86,14 +117,29 @@ def run(ctx):
     ctx.cov["harness_restarts"] = restarts
     ctx.cov["programs"] = len(sx)
     ctx.cov["fault_runs"] = len(cases) - len(sx)
+    # conversions: not modelled; the same oracles, with faults at the first callback invocations
+    conv = conv_scripts(rng, 400 if thorough else 60)
+    ccases, cmeta = [], []
+    for t in conv:
+        for k, kind in [(1000000, "std")] + [(k, kind) for k in (0, 1) for kind in ("runtime", "boxed", "eval")]:
+            ccases.append("%d %s 1 opt %s" % (k, kind, t.encode().hex()))
+            cmeta.append((t, t, k, kind))
+    with ctx.timer("impl"):
+        cout, _ = C.run_harness_resilient(exe, [], ccases, timeout=300, mem_gb=6)
+    ctx.cov["conversion_scripts"] = len(conv)
+    ctx.count("evaluations", len(ccases))
+    for o in cout:
+        ctx.hist("conversion_outcomes", " ".join(o.split(" ")[:2])[:40])
     # model-independent oracles on the real engine
     found = 0
-    for (s, text_, k, kind), o in zip(meta, iout):
+    for (s, text_, k, kind), o in list(zip(meta, iout)) + list(zip(cmeta, cout)):
         bad = None
         if " shape=[1]/1/0 " not in o + " ":
             bad = "the Stack_Holder is not back in its resting shape"
         elif "SAVED-PARAMS-LEFT" in o:
             bad = "saved call parameters were not released"
+        elif o.startswith("res=parse-error") or "crash" in o[:12]:
+            bad = "unexpected harness answer: " + o[:200]
         elif "ENGINE-BROKEN" in o:
             bad = "the engine no longer evaluates 1 + 1"
         else:
